@@ -71,6 +71,7 @@ type Exec struct {
 	knownTerms   map[*Term]*Term
 	feasCache    map[*Term]bool
 	abstractFns  map[string]bool
+	world        *World
 	symLoopBound int
 	maxSymUnroll int
 	feasQueries  int
@@ -948,6 +949,9 @@ func (ex *Exec) feasible(pc *Term) bool {
 	}
 	if pc == TTrue {
 		return true
+	}
+	if pc.open {
+		return true // evaluated under a contract quantifier: no closed query can be asked
 	}
 	if ex.feasCache == nil {
 		ex.feasCache = map[*Term]bool{}
